@@ -16,7 +16,11 @@ Safety (always judged)
       unless errored, the id echoed by the server); at most one entry per request
   S4  a final response after n redirect hops carries exactly those n hops in `redirects` (status + Location, in
       order); a response to a request that was not redirected carries none
-  S5  https -> http Location: no connection and no byte ever reaches the http target
+  S5  https -> anything that is not https (http:// in any case, //host:port/ network-path, ws://, htp:// ...) pointing at
+      the plain-http sink: no connection and no byte ever reaches the sink, the entry is not a followed redirect
+  S6  the bytes of queued request k that arrive (hop 0) carry exactly the body / content-type implied by request k's
+      own spec (GET nothing; data -> JSON; fargs -> form; else raw body), and entry k's `request` echo carries request
+      k's own method/path/qargs/data/fargs/body (not judged for redirected requests: redirect() rebuilds the requester)
 Bounded progress (only while no harness server has closed a connection and no downgrade was scripted)
   P1  after N service rounds (N computed from the script) there is exactly one response per queued request
 """
@@ -45,7 +49,7 @@ RULE = ("a case = one Client with a queue of 1-8 requests (GET/POST/PUT/DELETE/H
         "JSON `data` / form `fargs` / data+body (keys absent or explicitly None), in every order over 2-3 consecutive requests on a fixed "
         "schedule and at random. "
         "Non-trivial = queue of >= 2 requests or at least one redirect / delay / dribble / close; distinct = by the sequence of "
-        "(method, per-hop (status, target, delay>0, dribble>0, framing, close kind)) plus scheme and reconnectable.")
+        "(method, payload kind, per-hop (status, target, delay>0, dribble>0, framing, close kind)) plus scheme and reconnectable.")
 ASSUMPTIONS = [
     "the application queues well-formed request dicts and always passes `headers` (a request without headers re-uses the previous request's headers by design of Client.request/transmit)",
     "scripted servers answer with well-formed HTTP/1.1 (malformed responses belong to C13/C16)",
@@ -957,7 +961,7 @@ def _drive(case, ctx, w, servers, client, tymist):
     # evidence
     sig = [case["tls"], case["reconnectable"]]
     for r in reqs:
-        sig.append([r["method"], [[h["status"], h["target"], h["delay"] > 0, h["dribble"] > 0, h["framing"],
+        sig.append([r["method"], bkind_of(r), [[h["status"], h["target"], h["delay"] > 0, h["dribble"] > 0, h["framing"],
                                   "mid" if h["close_mid"] is not None else ("after" if h["connclose"] else "")] for h in r["hops"]]])
         for h in r["hops"]:
             ctx.count("hop_" + (h["target"] or "final"))
